@@ -81,6 +81,9 @@ def erase (m : Orders) (c : Nat) : Orders :=
 
 def insert (m : Orders) (c : Nat) (o : Order) : Orders := (c, o) :: erase m c
 
+/-- tracked state of `c` (`none` = untracked) -/
+def stateOf (m : Orders) (c : Nat) : Option Active := (lookup m c).map (·.state)
+
 /-- `entry.get_mut().state = s`. -/
 def setState (m : Orders) (c : Nat) (cur : Order) (s : Active) : Orders :=
   insert m c { cur with state := s }
